@@ -75,6 +75,10 @@ def ops_for(fnlabel):
     }
     if fnlabel in m:
         return m[fnlabel]
+    if fnlabel == 'xpath::axis::namespace':
+        return ['xpath.query.no_panic']
+    if fnlabel.startswith('xpath::axis::'):
+        return ['xpath.query.axes']
     if fnlabel.startswith('dom::XmlAttr::as_expanded_name') or fnlabel.startswith('dom::XmlElement::'):
         return ['xpath.query.names']
     if fnlabel in ('XmlElement::namespaces', 'XmlElement::in_scope_namespace', 'XmlElement::find_nameapce_uri', 'XmlElement::namespace_name', 'XmlAttribute::namespace_name'):
@@ -143,7 +147,7 @@ def _parse_witness(out, want_note=None, skip=None, skipped=None):
                 while j < len(lines) and lines[j].startswith('  '):
                     blk.append(lines[j])
                     j += 1
-                if not any(w in b for b in blk if b.strip().startswith('note=') for w in want_note):
+                if not any(w in b for b in blk if b.strip().startswith(('note=', 'arg query=', 'arg scenario=')) for w in want_note):
                     continue
             op = re.search(r'op=(\S+)', l).group(1)
             args = {}
@@ -206,6 +210,8 @@ def search(pid, ob, repo, scratch):
         for k, v in prefer.items():
             if fn.startswith(k) and op.endswith('_after_edits'):
                 sites = [v]
+        if op == 'xpath.query.axes' and fn.startswith('xpath::axis::'):
+            sites = ['/' + fn.split('::')[-1].replace('_and_self', '-or-self').replace('_', '-') + '::']
         p = subprocess.run([exe, 'grid', op, '40' if sites else '3'], capture_output=True, text=True, timeout=900, env=env)
         w = _parse_witness(p.stdout, sites) if sites else None
         if w is None:
